@@ -223,7 +223,7 @@ theorem waitInv_step {w : Wiring} {s s' : AState} {l : Label} (hs : step w s l =
     case begin o h k =>
       have hkeep := slotsLive_keep hs rfl
       simp only [step] at hs
-      obtain ⟨_, hph, st, hops', hout⟩ := stepBegin_spec hs
+      obtain ⟨_, hph, st, hops', hout⟩ := stepBegin_spec02 hs
       constructor
       · intro r' hr' hn
         rw [hops'] at hr'
